@@ -153,7 +153,7 @@ pub struct PointBytes {
 }
 
 /// Any byte string offered as a public key: Ok exactly when it is a valid SEC1 encoding of a curve point.
-fn check_point_bytes(c: &PointBytes) -> CaseResult {
+pub fn check_point_bytes(c: &PointBytes) -> CaseResult {
     let want = r2::decode_point(&c.bytes);
     let class = match (&want, c.bytes.len()) {
         (Some(_), _) => "valid",
@@ -189,7 +189,7 @@ pub struct SkBytes {
 }
 
 /// Private key bytes: wrong lengths are rejected; an accepted key is exactly the scalar given, with public key [d]G.
-fn check_sk_bytes(c: &SkBytes) -> CaseResult {
+pub fn check_sk_bytes(c: &SkBytes) -> CaseResult {
     let len_ok = c.bytes.len() == 32;
     for (what, got) in [
         ("Sm2PrivateKey::new", outcome(|| Sm2PrivateKey::new(&c.bytes))),
@@ -237,7 +237,7 @@ pub struct DerMut {
     pub pos: u16,
 }
 
-fn check_der_mut(c: &DerMut) -> CaseResult {
+pub fn check_der_mut(c: &DerMut) -> CaseResult {
     let d = from_be(&c.d);
     let q = r2::g_mul(&d);
     let b65 = r2::encode_uncompressed(&q);
